@@ -1,6 +1,10 @@
 import DarkluaModel.Shared.VisitorSound.HeapU.USteps
+import DarkluaModel.Shared.VisitorSound.HeapU.UCtx
 import DarkluaModel.Shared.VisitorSound.HeapU.USelf
 import DarkluaModel.Shared.VisitorSound.HeapU.UOracle
+import DarkluaModel.Shared.VisitorSound.HeapU.UDemoSub
+import DarkluaModel.Shared.VisitorSound.HeapU.URepl
+import DarkluaModel.Shared.VisitorSound.HeapU.UMatch
 import DarkluaModel.Shared.VisitorSoundHeap
 import DarkluaModel.Shared.VisitorSoundHeapV
 /-!
@@ -39,8 +43,21 @@ three partial injections with frontiers, `VR` congruence closure, links, lifting
 * plumbing for consumers that run one-sided preludes themselves: `SRel.rebase` (change context and closure-body
   relation while no closures are related — establish `cx.I` AFTER the preludes), `wrapCtl` / `observe_of_soundB`
   (outcome of two `SoundB`-related blocks from GIVEN environments and states).
-* NOT yet: watched globals / watched locals with known bindings (the `.wat` plumbing of stage 3, `IdGlobal`), an
-  "original raises" flavour of `upto`.
+* **watched names** (round 5; the `.wat` plumbing of stage 3, generalised): `cx.W` (names watched in every
+  environment pair), `cx.G` / `cx.F` (value / function-body facts about watched GLOBALS, kept by every `SRel`:
+  `hs.ginv`, `hs.finv`), `cx.bindL` / `cx.bindR` (the cell each side binds a watched name to; `EnvRel.wb`,
+  `EnvOK.watL` / `watR` / `alwaysL` / `alwaysR`); `HeapU/UCtx.lean`: `SoundE.injectGlobal`, `CtxEq…` / `CtxLe…`,
+  `IdGlobal`, `SoundE.dropIdCall` and their links. The final theorems take `hb : NoRefB (watD cx) b` (the program
+  neither declares nor assigns an always-watched name), `hok`, `hW0 : cx.top`, `hG`, `hF` — all discharged by
+  default for contexts that watch nothing. Worked instance: `Demo.DropAssertU`.
+* **one source, two substitutions** (`HeapU/USub.lean`): leaves whose two sides mention ONE-SIDED names cannot travel
+  through a chain of links (every intermediate program of a chain runs on both sides); `subB m true src` and
+  `subB m false src` are related in one simultaneous derivation (`subB_vr`). Worked instance with an always-watched
+  LOCAL established by a one-sided prelude and used inside closures: `Demo.WatchedLocal` (`HeapU/UDemoSub.lean`).
+* statement lists (`HeapU/URepl.lean`, upstreamed from C01): `execSs_append`, `SoundSs.append`, `VkT.ofLe`, `ReplU` /
+  `replU_sound` / `ReplListU` / `VkBo.repl` (a statement replaced, up to allocations, by a list of statements).
+* late matches of CELLS (`HeapU/UMatch.lean`): `SRel.matchCellRight` / `matchCellLeft`, `le_lateC` / `le_lateCL`.
+* NOT yet: an "original raises" flavour of `upto`; fuel monotonicity of `Sem`.
 -/
 namespace DarkluaModel
 open Sem Sem.HeapU
@@ -90,23 +107,32 @@ theorem HooksU.toRel (H : HooksU cx P) : HooksRel (vFam cx) P where
   insertLocalVal := H.insertLocalVal
   insertLocalFn := H.insertLocalFn
 
-theorem Sem.HeapU.wok_nil : WOK [] := fun _ h => by cases h
+theorem Sem.HeapU.watOK_watD (cx : HeapU.Cx) (hok : cx.Dok (watD cx)) : WatOK cx (watD cx) :=
+  ⟨fun n hn => by
+    obtain ⟨m, hm, e⟩ := List.mem_map.mp hn
+    cases e
+    exact .inl hm, hok⟩
 theorem Sem.HeapU.noRefB_nil (b : Block) : NoRefB [] b := fun _ h => by cases h
+
+/-- the default proof of `NoRefB (watD cx) b` / `cx.Dok (watD cx)`: contexts that watch nothing -/
+macro "nowat_tac" : tactic => `(tactic| first | trivial | (intro _ h; cases h))
 
 /-- **General form.** A chain of closed-block links between whole programs preserves the observable outcome of a
 run from a self-related initial state — or (only when `cx.upto`) the original exhausts its budget. -/
 theorem Sem.HeapU.chain_runChunk' {b b' : Block} (h : Chain (VkB cx) b b') {N : NumOps} (ρ : ExtOracle N)
     (hρ : OracleFlat ρ) (hCF : ∀ n, cx.CF N ρ n (callClosure ρ n)) (n : Nat) {β : Inj N} {σ0 : State N}
-    (hs : SRel (VQ cx) cx β σ0 σ0) (hur : cx.uptoR = false := by rfl) :
+    (hs : SRel (VQ cx) cx β σ0 σ0) (hur : cx.uptoR = false := by rfl)
+    (hb : NoRefB (watD cx) b := by nowat_tac) (hok : cx.Dok (watD cx) := by nowat_tac)
+    (hW0 : cx.top := by top_tac) :
     (cx.upto = true ∧ observe (runChunk ρ n b σ0) = .timeout) ∨
       observe (runChunk ρ n b' σ0) = observe (runChunk ρ n b σ0) := by
   induction h with
   | refl => exact .inr rfl
   | @cons a m c hl _ ih =>
-    obtain ⟨⟨D', hvr⟩, _⟩ := hl [] wok_nil (noRefB_nil a)
-    rcases runChunk_vr' ρ hρ hCF n hvr hs hur with h1 | h1
+    obtain ⟨⟨D', hvr⟩, hm⟩ := hl (watD cx) (watOK_watD cx hok) hb
+    rcases runChunk_vr' ρ hρ hCF n hvr hs hur hW0 with h1 | h1
     · exact .inl h1
-    · rcases ih with h2 | h2
+    · rcases ih hm with h2 | h2
       · exact .inl ⟨h2.1, by rw [← h1]; exact h2.2⟩
       · exact .inr (h2.trans h1)
 
@@ -114,15 +140,17 @@ theorem Sem.HeapU.chain_runChunk' {b b' : Block} (h : Chain (VkB cx) b b') {N : 
 its budget -/
 theorem Sem.HeapU.chain_runChunkR {b b' : Block} (h : Chain (VkB cx) b b') {N : NumOps} (ρ : ExtOracle N)
     (hρ : OracleFlat ρ) (hCF : ∀ n, cx.CF N ρ n (callClosure ρ n)) (n : Nat) {β : Inj N} {σ0 : State N}
-    (hs : SRel (VQ cx) cx β σ0 σ0) (hu : cx.upto = false := by rfl) :
+    (hs : SRel (VQ cx) cx β σ0 σ0) (hu : cx.upto = false := by rfl)
+    (hb : NoRefB (watD cx) b := by nowat_tac) (hok : cx.Dok (watD cx) := by nowat_tac)
+    (hW0 : cx.top := by top_tac) :
     observe (runChunk ρ n b' σ0) = .timeout ∨ observe (runChunk ρ n b' σ0) = observe (runChunk ρ n b σ0) := by
   induction h with
   | refl => exact .inr rfl
   | @cons a m c hl _ ih =>
-    obtain ⟨⟨D', hvr⟩, _⟩ := hl [] wok_nil (noRefB_nil a)
-    rcases ih with h2 | h2
+    obtain ⟨⟨D', hvr⟩, hm⟩ := hl (watD cx) (watOK_watD cx hok) hb
+    rcases ih hm with h2 | h2
     · exact .inl h2
-    · rcases runChunk_vrR ρ hρ hCF n hvr hs hu with h1 | h1
+    · rcases runChunk_vrR ρ hρ hCF n hvr hs hu hW0 with h1 | h1
       · exact .inl (h2.trans h1)
       · exact .inr (h2.trans h1)
 
@@ -130,35 +158,54 @@ theorem Sem.HeapU.chain_runProgram {b b' : Block} (h : Chain (VkB cx) b b') {N :
     (hρ : OracleFlat ρ) (n : Nat) (externs : List String)
     (hI : cx.I N initRel (initState externs : State N) (initState externs) := by trivial)
     (hu : cx.upto = false := by rfl) (hCF : ∀ n, cx.CF N ρ n (callClosure ρ n) := by intros; trivial)
-    (hur : cx.uptoR = false := by rfl) :
+    (hur : cx.uptoR = false := by rfl)
+    (hb : NoRefB (watD cx) b := by nowat_tac) (hok : cx.Dok (watD cx) := by nowat_tac)
+    (hW0 : cx.top := by top_tac)
+    (hG : ∀ p ∈ cx.G N, (initState externs : State N).getGlobal p.1 = p.2 := by nowat_tac)
+    (hF : ∀ p ∈ cx.F, FnGlobal (initState externs : State N) p.1 p.2 := by nowat_tac) :
     runProgram ρ n externs b' = runProgram ρ n externs b := by
-  rcases chain_runChunk' h ρ hρ hCF n (SRel.init (VQ cx) externs hI) hur with ⟨h1, _⟩ | h2
+  rcases chain_runChunk' h ρ hρ hCF n (SRel.init (VQ cx) externs hI hG hF) hur hb hok hW0 with ⟨h1, _⟩ | h2
   · rw [hu] at h1; cases h1
   · exact h2
 
 theorem Sem.HeapU.chain_runProgram_upto {b b' : Block} (h : Chain (VkB cx) b b') {N : NumOps} (ρ : ExtOracle N)
     (hρ : OracleFlat ρ) (n : Nat) (externs : List String)
     (hI : cx.I N initRel (initState externs : State N) (initState externs) := by trivial)
-    (hCF : ∀ n, cx.CF N ρ n (callClosure ρ n) := by intros; trivial) (hur : cx.uptoR = false := by rfl) :
+    (hCF : ∀ n, cx.CF N ρ n (callClosure ρ n) := by intros; trivial) (hur : cx.uptoR = false := by rfl)
+    (hb : NoRefB (watD cx) b := by nowat_tac) (hok : cx.Dok (watD cx) := by nowat_tac)
+    (hW0 : cx.top := by top_tac)
+    (hG : ∀ p ∈ cx.G N, (initState externs : State N).getGlobal p.1 = p.2 := by nowat_tac)
+    (hF : ∀ p ∈ cx.F, FnGlobal (initState externs : State N) p.1 p.2 := by nowat_tac) :
     runProgram ρ n externs b = .timeout ∨ runProgram ρ n externs b' = runProgram ρ n externs b := by
-  rcases chain_runChunk' h ρ hρ hCF n (SRel.init (VQ cx) externs hI) hur with ⟨_, h1⟩ | h2
+  rcases chain_runChunk' h ρ hρ hCF n (SRel.init (VQ cx) externs hI hG hF) hur hb hok hW0 with ⟨_, h1⟩ | h2
   · exact .inl h1
   · exact .inr h2
 
 theorem Sem.HeapU.chain_runProgram_uptoR {b b' : Block} (h : Chain (VkB cx) b b') {N : NumOps} (ρ : ExtOracle N)
     (hρ : OracleFlat ρ) (n : Nat) (externs : List String)
     (hI : cx.I N initRel (initState externs : State N) (initState externs) := by trivial)
-    (hCF : ∀ n, cx.CF N ρ n (callClosure ρ n) := by intros; trivial) (hu : cx.upto = false := by rfl) :
+    (hCF : ∀ n, cx.CF N ρ n (callClosure ρ n) := by intros; trivial) (hu : cx.upto = false := by rfl)
+    (hb : NoRefB (watD cx) b := by nowat_tac) (hok : cx.Dok (watD cx) := by nowat_tac)
+    (hW0 : cx.top := by top_tac)
+    (hG : ∀ p ∈ cx.G N, (initState externs : State N).getGlobal p.1 = p.2 := by nowat_tac)
+    (hF : ∀ p ∈ cx.F, FnGlobal (initState externs : State N) p.1 p.2 := by nowat_tac) :
     runProgram ρ n externs b' = .timeout ∨ runProgram ρ n externs b' = runProgram ρ n externs b :=
-  chain_runChunkR h ρ hρ hCF n (SRel.init (VQ cx) externs hI) hu
+  chain_runChunkR h ρ hρ hCF n (SRel.init (VQ cx) externs hI hG hF) hu hb hok hW0
 
 /-- from any well-formed initial state in which the consumer's invariant holds -/
 theorem Sem.HeapU.chain_runChunk_wf {b b' : Block} (h : Chain (VkB cx) b b') {N : NumOps} (ρ : ExtOracle N)
     (hρ : OracleFlat ρ) (hCF : ∀ n, cx.CF N ρ n (callClosure ρ n)) (n : Nat) {σ0 : State N} (hwf : State.WF σ0)
-    (hI : cx.I N (idRel σ0) σ0 σ0) (hur : cx.uptoR = false := by rfl) :
+    (hI : cx.I N (idRel σ0) σ0 σ0) (hur : cx.uptoR = false := by rfl)
+    (hb : NoRefB (watD cx) b := by nowat_tac) (hok : cx.Dok (watD cx) := by nowat_tac)
+    (hW0 : cx.top := by top_tac)
+    (hG : ∀ p ∈ cx.G N, σ0.getGlobal p.1 = p.2 := by nowat_tac)
+    (hF : ∀ p ∈ cx.F, FnGlobal σ0 p.1 p.2 := by nowat_tac)
+    (hcl : ∀ c ∈ σ0.closures, NoRefF (watD cx) c.body ∧ ∀ n ∈ cx.W,
+        lookupAssoc n c.env = lookupAssoc n cx.bindL ∧ lookupAssoc n c.env = lookupAssoc n cx.bindR := by
+      nowat_tac) :
     (cx.upto = true ∧ observe (runChunk ρ n b σ0) = .timeout) ∨
       observe (runChunk ρ n b' σ0) = observe (runChunk ρ n b σ0) :=
-  chain_runChunk' h ρ hρ hCF n (SRel.ofWF VQ_refl hwf hI) hur
+  chain_runChunk' h ρ hρ hCF n (SRel.ofWF VQ_refl hwf hI hG hF hcl) hur hb hok hW0
 
 theorem Visitor.visit_chain_u (H : HooksU cx P) (sc : Bool) (fuel : Nat) (pushes : Bool) (b : Block) (s : σ) :
     Chain (VkB cx) b (Visitor.visitBlock P sc fuel pushes b s).1 :=
@@ -169,75 +216,111 @@ theorem Visitor.visit_u (H : HooksU cx P) (sc : Bool) (fuel : Nat) (pushes : Boo
     {N : NumOps} (ρ : ExtOracle N) (hρ : OracleFlat ρ) (n : Nat) (externs : List String)
     (hI : cx.I N initRel (initState externs : State N) (initState externs) := by trivial)
     (hu : cx.upto = false := by rfl) (hCF : ∀ n, cx.CF N ρ n (callClosure ρ n) := by intros; trivial)
-    (hur : cx.uptoR = false := by rfl) :
+    (hur : cx.uptoR = false := by rfl)
+    (hb : NoRefB (watD cx) b := by nowat_tac) (hok : cx.Dok (watD cx) := by nowat_tac)
+    (hW0 : cx.top := by top_tac)
+    (hG : ∀ p ∈ cx.G N, (initState externs : State N).getGlobal p.1 = p.2 := by nowat_tac)
+    (hF : ∀ p ∈ cx.F, FnGlobal (initState externs : State N) p.1 p.2 := by nowat_tac) :
     runProgram ρ n externs (Visitor.visitBlock P sc fuel pushes b s).1 = runProgram ρ n externs b :=
-  chain_runProgram (Visitor.visit_chain_u H sc fuel pushes b s) ρ hρ n externs hI hu hCF hur
+  chain_runProgram (Visitor.visit_chain_u H sc fuel pushes b s) ρ hρ n externs hI hu hCF hur hb hok hW0 hG hF
 
 /-- **lifting theorem (up to budget exhaustion of the original)** -/
 theorem Visitor.visit_u_upto (H : HooksU cx P) (sc : Bool) (fuel : Nat) (pushes : Bool) (b : Block) (s : σ)
     {N : NumOps} (ρ : ExtOracle N) (hρ : OracleFlat ρ) (n : Nat) (externs : List String)
     (hI : cx.I N initRel (initState externs : State N) (initState externs) := by trivial)
-    (hCF : ∀ n, cx.CF N ρ n (callClosure ρ n) := by intros; trivial) (hur : cx.uptoR = false := by rfl) :
+    (hCF : ∀ n, cx.CF N ρ n (callClosure ρ n) := by intros; trivial) (hur : cx.uptoR = false := by rfl)
+    (hb : NoRefB (watD cx) b := by nowat_tac) (hok : cx.Dok (watD cx) := by nowat_tac)
+    (hW0 : cx.top := by top_tac)
+    (hG : ∀ p ∈ cx.G N, (initState externs : State N).getGlobal p.1 = p.2 := by nowat_tac)
+    (hF : ∀ p ∈ cx.F, FnGlobal (initState externs : State N) p.1 p.2 := by nowat_tac) :
     runProgram ρ n externs b = .timeout ∨
       runProgram ρ n externs (Visitor.visitBlock P sc fuel pushes b s).1 = runProgram ρ n externs b :=
-  chain_runProgram_upto (Visitor.visit_chain_u H sc fuel pushes b s) ρ hρ n externs hI hCF hur
+  chain_runProgram_upto (Visitor.visit_chain_u H sc fuel pushes b s) ρ hρ n externs hI hCF hur hb hok hW0 hG hF
 
 /-- **lifting theorem (up to budget exhaustion of the REWRITTEN program, `cx.uptoR`)** -/
 theorem Visitor.visit_u_uptoR (H : HooksU cx P) (sc : Bool) (fuel : Nat) (pushes : Bool) (b : Block) (s : σ)
     {N : NumOps} (ρ : ExtOracle N) (hρ : OracleFlat ρ) (n : Nat) (externs : List String)
     (hI : cx.I N initRel (initState externs : State N) (initState externs) := by trivial)
-    (hCF : ∀ n, cx.CF N ρ n (callClosure ρ n) := by intros; trivial) (hu : cx.upto = false := by rfl) :
+    (hCF : ∀ n, cx.CF N ρ n (callClosure ρ n) := by intros; trivial) (hu : cx.upto = false := by rfl)
+    (hb : NoRefB (watD cx) b := by nowat_tac) (hok : cx.Dok (watD cx) := by nowat_tac)
+    (hW0 : cx.top := by top_tac)
+    (hG : ∀ p ∈ cx.G N, (initState externs : State N).getGlobal p.1 = p.2 := by nowat_tac)
+    (hF : ∀ p ∈ cx.F, FnGlobal (initState externs : State N) p.1 p.2 := by nowat_tac) :
     runProgram ρ n externs (Visitor.visitBlock P sc fuel pushes b s).1 = .timeout ∨
       runProgram ρ n externs (Visitor.visitBlock P sc fuel pushes b s).1 = runProgram ρ n externs b :=
-  chain_runProgram_uptoR (Visitor.visit_chain_u H sc fuel pushes b s) ρ hρ n externs hI hCF hu
+  chain_runProgram_uptoR (Visitor.visit_chain_u H sc fuel pushes b s) ρ hρ n externs hI hCF hu hb hok hW0 hG hF
 
 theorem Visitor.runDefault_u_uptoR (H : HooksU cx P) (b : Block) (s : σ) {N : NumOps} (ρ : ExtOracle N)
     (hρ : OracleFlat ρ) (n : Nat) (externs : List String)
     (hI : cx.I N initRel (initState externs : State N) (initState externs) := by trivial)
-    (hCF : ∀ n, cx.CF N ρ n (callClosure ρ n) := by intros; trivial) (hu : cx.upto = false := by rfl) :
+    (hCF : ∀ n, cx.CF N ρ n (callClosure ρ n) := by intros; trivial) (hu : cx.upto = false := by rfl)
+    (hb : NoRefB (watD cx) b := by nowat_tac) (hok : cx.Dok (watD cx) := by nowat_tac)
+    (hW0 : cx.top := by top_tac)
+    (hG : ∀ p ∈ cx.G N, (initState externs : State N).getGlobal p.1 = p.2 := by nowat_tac)
+    (hF : ∀ p ∈ cx.F, FnGlobal (initState externs : State N) p.1 p.2 := by nowat_tac) :
     runProgram ρ n externs (Visitor.runDefault P b s).1 = .timeout ∨
       runProgram ρ n externs (Visitor.runDefault P b s).1 = runProgram ρ n externs b :=
-  Visitor.visit_u_uptoR H false _ true b s ρ hρ n externs hI hCF hu
+  Visitor.visit_u_uptoR H false _ true b s ρ hρ n externs hI hCF hu hb hok hW0 hG hF
 
 theorem Visitor.runScoped_u_uptoR (H : HooksU cx P) (b : Block) (s : σ) {N : NumOps} (ρ : ExtOracle N)
     (hρ : OracleFlat ρ) (n : Nat) (externs : List String)
     (hI : cx.I N initRel (initState externs : State N) (initState externs) := by trivial)
-    (hCF : ∀ n, cx.CF N ρ n (callClosure ρ n) := by intros; trivial) (hu : cx.upto = false := by rfl) :
+    (hCF : ∀ n, cx.CF N ρ n (callClosure ρ n) := by intros; trivial) (hu : cx.upto = false := by rfl)
+    (hb : NoRefB (watD cx) b := by nowat_tac) (hok : cx.Dok (watD cx) := by nowat_tac)
+    (hW0 : cx.top := by top_tac)
+    (hG : ∀ p ∈ cx.G N, (initState externs : State N).getGlobal p.1 = p.2 := by nowat_tac)
+    (hF : ∀ p ∈ cx.F, FnGlobal (initState externs : State N) p.1 p.2 := by nowat_tac) :
     runProgram ρ n externs (Visitor.runScoped P b s).1 = .timeout ∨
       runProgram ρ n externs (Visitor.runScoped P b s).1 = runProgram ρ n externs b :=
-  Visitor.visit_u_uptoR H true _ true b s ρ hρ n externs hI hCF hu
+  Visitor.visit_u_uptoR H true _ true b s ρ hρ n externs hI hCF hu hb hok hW0 hG hF
 
 theorem Visitor.runDefault_u (H : HooksU cx P) (b : Block) (s : σ) {N : NumOps} (ρ : ExtOracle N) (hρ : OracleFlat ρ)
     (n : Nat) (externs : List String)
     (hI : cx.I N initRel (initState externs : State N) (initState externs) := by trivial)
     (hu : cx.upto = false := by rfl) (hCF : ∀ n, cx.CF N ρ n (callClosure ρ n) := by intros; trivial)
-    (hur : cx.uptoR = false := by rfl) :
+    (hur : cx.uptoR = false := by rfl)
+    (hb : NoRefB (watD cx) b := by nowat_tac) (hok : cx.Dok (watD cx) := by nowat_tac)
+    (hW0 : cx.top := by top_tac)
+    (hG : ∀ p ∈ cx.G N, (initState externs : State N).getGlobal p.1 = p.2 := by nowat_tac)
+    (hF : ∀ p ∈ cx.F, FnGlobal (initState externs : State N) p.1 p.2 := by nowat_tac) :
     runProgram ρ n externs (Visitor.runDefault P b s).1 = runProgram ρ n externs b :=
-  Visitor.visit_u H false _ true b s ρ hρ n externs hI hu hCF hur
+  Visitor.visit_u H false _ true b s ρ hρ n externs hI hu hCF hur hb hok hW0 hG hF
 
 theorem Visitor.runScoped_u (H : HooksU cx P) (b : Block) (s : σ) {N : NumOps} (ρ : ExtOracle N) (hρ : OracleFlat ρ)
     (n : Nat) (externs : List String)
     (hI : cx.I N initRel (initState externs : State N) (initState externs) := by trivial)
     (hu : cx.upto = false := by rfl) (hCF : ∀ n, cx.CF N ρ n (callClosure ρ n) := by intros; trivial)
-    (hur : cx.uptoR = false := by rfl) :
+    (hur : cx.uptoR = false := by rfl)
+    (hb : NoRefB (watD cx) b := by nowat_tac) (hok : cx.Dok (watD cx) := by nowat_tac)
+    (hW0 : cx.top := by top_tac)
+    (hG : ∀ p ∈ cx.G N, (initState externs : State N).getGlobal p.1 = p.2 := by nowat_tac)
+    (hF : ∀ p ∈ cx.F, FnGlobal (initState externs : State N) p.1 p.2 := by nowat_tac) :
     runProgram ρ n externs (Visitor.runScoped P b s).1 = runProgram ρ n externs b :=
-  Visitor.visit_u H true _ true b s ρ hρ n externs hI hu hCF hur
+  Visitor.visit_u H true _ true b s ρ hρ n externs hI hu hCF hur hb hok hW0 hG hF
 
 theorem Visitor.runDefault_u_upto (H : HooksU cx P) (b : Block) (s : σ) {N : NumOps} (ρ : ExtOracle N)
     (hρ : OracleFlat ρ) (n : Nat) (externs : List String)
     (hI : cx.I N initRel (initState externs : State N) (initState externs) := by trivial)
-    (hCF : ∀ n, cx.CF N ρ n (callClosure ρ n) := by intros; trivial) (hur : cx.uptoR = false := by rfl) :
+    (hCF : ∀ n, cx.CF N ρ n (callClosure ρ n) := by intros; trivial) (hur : cx.uptoR = false := by rfl)
+    (hb : NoRefB (watD cx) b := by nowat_tac) (hok : cx.Dok (watD cx) := by nowat_tac)
+    (hW0 : cx.top := by top_tac)
+    (hG : ∀ p ∈ cx.G N, (initState externs : State N).getGlobal p.1 = p.2 := by nowat_tac)
+    (hF : ∀ p ∈ cx.F, FnGlobal (initState externs : State N) p.1 p.2 := by nowat_tac) :
     runProgram ρ n externs b = .timeout ∨
       runProgram ρ n externs (Visitor.runDefault P b s).1 = runProgram ρ n externs b :=
-  Visitor.visit_u_upto H false _ true b s ρ hρ n externs hI hCF hur
+  Visitor.visit_u_upto H false _ true b s ρ hρ n externs hI hCF hur hb hok hW0 hG hF
 
 theorem Visitor.runScoped_u_upto (H : HooksU cx P) (b : Block) (s : σ) {N : NumOps} (ρ : ExtOracle N)
     (hρ : OracleFlat ρ) (n : Nat) (externs : List String)
     (hI : cx.I N initRel (initState externs : State N) (initState externs) := by trivial)
-    (hCF : ∀ n, cx.CF N ρ n (callClosure ρ n) := by intros; trivial) (hur : cx.uptoR = false := by rfl) :
+    (hCF : ∀ n, cx.CF N ρ n (callClosure ρ n) := by intros; trivial) (hur : cx.uptoR = false := by rfl)
+    (hb : NoRefB (watD cx) b := by nowat_tac) (hok : cx.Dok (watD cx) := by nowat_tac)
+    (hW0 : cx.top := by top_tac)
+    (hG : ∀ p ∈ cx.G N, (initState externs : State N).getGlobal p.1 = p.2 := by nowat_tac)
+    (hF : ∀ p ∈ cx.F, FnGlobal (initState externs : State N) p.1 p.2 := by nowat_tac) :
     runProgram ρ n externs b = .timeout ∨
       runProgram ρ n externs (Visitor.runScoped P b s).1 = runProgram ρ n externs b :=
-  Visitor.visit_u_upto H true _ true b s ρ hρ n externs hI hCF hur
+  Visitor.visit_u_upto H true _ true b s ρ hρ n externs hI hCF hur hb hok hW0 hG hF
 
 /-! ### exact hooks are unified hooks when they introduce no identifier references -/
 
@@ -316,5 +399,59 @@ theorem run_refines (b : Block) (n : Nat) (externs : List String) :
   Visitor.runScoped_u hooksU b () _ HeapU.driverOracle_flat n externs
 
 end Demo.DropUnusedAllocU
+
+/-! ## Worked instance: a call fact about a watched global (`Demo.DropAssert` of stage 3, through `Sem.HeapU`) -/
+namespace Demo.DropAssertU
+open Sem.Heap (idBody callClosure_idBody)
+open Demo.DropAssert (processor exprHook env0)
+
+def acx : HeapU.Cx where
+  W := ["assert"]
+  G := fun _ => [("assert", .fn 0)]
+  sub := fun _ p hp => by simp only [List.mem_singleton] at hp; subst hp; simp
+  upto := true
+  F := [("assert", idBody)]
+  subF := fun p hp => by simp only [List.mem_singleton] at hp; subst hp; simp
+  CF := fun N _ _ call => ∀ (clo : Closure N) args σ, clo.body = idBody → clo.env = [] →
+    call clo args σ = .ok args σ ∨ call clo args σ = .timeout
+
+theorem idGlobal : HeapU.IdGlobal acx "assert" 0 idBody where
+  watched := by simp [acx]
+  upto := rfl
+  isFn := fun _ => by simp [acx]
+  hasBody := by simp [acx]
+  runs := fun _ _ _ _ h => h
+
+theorem hooksU : HooksU acx processor where
+  expr := fun e s => by
+    simp only [processor, exprHook]
+    split
+    · exact .single (HeapU.VkE.dropIdCall idGlobal)
+    · exact .refl _
+
+/-- whole-pass theorem: same outcome in the modified environment, unless the original exhausts its budget -/
+theorem run_refines (b : Block) (hb : NoRefB [.wat "assert"] b) {N : NumOps} (ρ : ExtOracle N)
+    (hρ : HeapU.OracleFlat ρ) (n : Nat) (externs : List String) :
+    observe (runChunk ρ n b (env0 externs : State N)) = .timeout ∨
+      observe (runChunk ρ n (Visitor.runDefault processor b ()).1 (env0 externs)) =
+        observe (runChunk ρ n b (env0 externs)) := by
+  have hwf : HeapU.State.WF (env0 externs : State N) :=
+    HeapU.State.WF.presetFn (HeapU.State.WF.init externs) "assert" idBody
+  rcases HeapU.chain_runChunk_wf (cx := acx) (Visitor.visit_chain_u hooksU false _ true b ()) ρ hρ
+      (fun n clo args σ hb henv => callClosure_idBody ρ n clo args σ hb henv) n hwf trivial rfl hb trivial
+      (fun _ _ => ⟨rfl, rfl⟩)
+      (fun p hp => by
+        simp only [acx, List.mem_singleton] at hp; subst hp
+        simp [env0, State.getGlobal, lookupAssoc])
+      (fun p hp => by
+        simp only [acx, List.mem_singleton] at hp; subst hp
+        exact ⟨0, ⟨idBody, [], []⟩, by simp [env0, State.getGlobal, lookupAssoc], rfl, rfl, rfl⟩)
+      (fun c hc => by
+        simp only [env0, List.mem_singleton] at hc; subst hc
+        exact ⟨NoRefF.mk.mpr ⟨fun _ _ => rfl, NoRefB.ofBool rfl⟩, fun _ _ => ⟨rfl, rfl⟩⟩) with h | h
+  · exact .inl h.2
+  · exact .inr h
+
+end Demo.DropAssertU
 
 end DarkluaModel
